@@ -1040,3 +1040,48 @@ def rule_areaemit(ctx, R):
 
 
 RULES.append(("C03.AREAEMIT", "the emitted comparison tree of an area is the area's tree (generator recognised as the reference explicit-stack walk)", rule_areaemit))
+
+
+def rule_buildchain(ctx, R):
+    """from the emitted text to the executable: the text build_source returned is what is written, completely, to
+    src/main.rs of the build project before cargo runs on that project; the project is created when it is missing"""
+    fb = ctx.fb_all
+    IO = "hyeong::util::io::"
+    sv = fb.bodies.get(IO + "save_to_file")
+    if R.anchor(sv is not None, "save_to_file", IO + "save_to_file"):
+        R.analyse(sv.name)
+        cfg = normal_cfg(sv)
+        r_ = Roles(sv, fb, param_roles={1: "PATH", 2: "TEXT"})
+        ws = [bi for bi, t in sv.calls() if callee_name(t["f"], fb) == "std::io::Write::write_all" and r_.of_operand(t["args"][0], bi) == "TRY(File::create(PATH))" and r_.of_operand(t["args"][1], bi) in ("String::as_bytes(TEXT)", "str::as_bytes(TEXT)")]
+        oks = [bi for bi, blk in enumerate(sv.blocks) if not blk["cleanup"] for st in blk["stmts"] if st["k"] == "assign" and st["p"]["l"] == 0 and st["r"]["k"] == "agg" and st["r"].get("variant") == "Ok"]
+        R.check(len(ws) == 1 and bool(oks) and not reaches_without(cfg, [0], oks, cut_blocks=ws), "buildchain:save_all", "save_to_file creates the file and writes the whole text before it reports success", sv.span)
+    b = fb.bodies.get("hyeong::app::build::run")
+    if not R.anchor(b is not None, "build_run", "app::build::run"):
+        return
+    R.analyse(b.name)
+    cfg = normal_cfg(b)
+    pr = {i: ("OPT" if "HyeongOption" in b.lty(i) else "P%d" % i) for i in range(1, b.argc + 1)}
+    roles = Roles(b, fb, param_roles=pr)
+    ev = Events(b, fb, roles=roles)
+    saves = [(bi, t) for bi, t in b.calls() if callee_name(t["f"], fb) == IO + "save_to_file"]
+    cargo = [(bi, t) for bi, t in b.calls() if callee_name(t["f"], fb).endswith("ext::execute_command_stderr")]
+    if R.anchor(len(saves) == 1 and len(cargo) == 1, "buildchain:sites", "the one save_to_file call and the one cargo invocation of build::run"):
+        sb, st = saves[0]
+        cb, ct = cargo[0]
+        path, text = roles.of_operand(st["args"][0], sb), roles.of_operand(st["args"][1], sb)
+        P = "Path::join(UNWRAP(Option::as_ref(OPT.build_path)),K'hyeong-build/"
+        R.check(path == P + "src/main.rs')" and text.startswith("PHI(compile::build_source(") and text.count("compile::build_source(") == 2 and "|" in text, "buildchain:saved_text", "what is written to the build project's src/main.rs is the text build_source returned (either branch): %s <- %s" % (path[-40:], text[:60]), st["span"]["at"])
+        cmd = roles.of_operand(ct["args"][1], cb)
+        R.check(not reaches_without(cfg, [0], cb, cut_blocks=[sb]) and "cargo build --manifest-path=" in cmd and (P + "Cargo.toml')") in cmd, "buildchain:save_before_cargo", "cargo is run on the manifest of that same project, after the text was saved on every path", ct["span"]["at"])
+        inst = [bi for bi, t in b.calls() if callee_name(t["f"], fb).endswith("init::install_run")]
+        missing = []
+        for gb, blk in enumerate(b.blocks):
+            tt = blk["term"]
+            if tt["k"] == "switch" and not blk["cleanup"]:
+                for s_ in cfg.succ[gb]:
+                    if (ev.generic_edge(gb, tt, s_) or "") == "BR[Path::exists(%sCargo.toml'))]=0" % P:
+                        missing.append((gb, s_))
+        R.check(len(inst) == 1 and len(missing) == 1 and not reaches_without(cfg, [0], inst[0], cut_edges=missing) and not reaches_without(cfg, [missing[0][1]], [sb], cut_blocks=inst), "buildchain:project", "the build project is created exactly when its manifest does not exist yet, before the text is saved", b.blocks[inst[0]]["term"]["span"]["at"] if inst else b.span)
+
+
+RULES.append(("C03.BUILDCHAIN", "`hyeong build` writes the emitted text, whole, to the build project's main.rs before cargo runs on that project; the project is created when missing", rule_buildchain))
